@@ -8,8 +8,8 @@ Three layers (DESIGN.md 4/C09, design_notes/C09.md):
              `table_failures` states the same predicates in Python on the live classes: when the Lean obligations no
              longer build, it names the offending tuple / class (→ VIOLATION with that tuple as replay).
   * model    C09_graph_noninterference / C09_markup_noninterference / C09_side_table_write_only (side-table engine),
-             C09_locked_single_thread, C09_async_flat, C09_async_graph_flat, C09_hsm_flat_partial /
-             C09_hsm_flat_counterexample (depth-1 collapse of NestedTransition._change_state) — unbounded Lean theorems.
+             C09_locked_single_thread, C09_async_flat, C09_async_graph_flat, C09_hsm_flat (depth-1 collapse of
+             NestedTransition._change_state, full strength) — unbounded Lean theorems.
   * code     differential, the property's monitor: the C01 / C04 / C05 (+ membership) generators run on `Machine` and on
              the other 11 classes — reached by name AND through `MachineFactory.get_predefined` — and the runs are
              compared: model states, truth value of every result, exception types, callback sequences with
@@ -38,7 +38,6 @@ SYNC_CLASSES = list(c04.SYNC_CLASSES)
 ASYNC_CLASSES = ['AsyncMachine', 'HierarchicalAsyncMachine', 'AsyncGraphMachine', 'HierarchicalAsyncGraphMachine']
 ALL_CLASSES = SYNC_CLASSES + ASYNC_CLASSES
 
-SIG_RETRIGGER = 'C09.hsm:_change_state-while-model-not-in-transition.source'
 TABLE_MODULE = 'Props.C09Tables'
 HANG_S = 30.0       # watchdog for one run of a locked or async class (the sandbox may be heavily loaded)
 
@@ -418,54 +417,6 @@ class Run9(flat.FlatRun):
 
 
 # ---------------------------------------------------------------------------------------------
-# reference twins used to classify the listed finding
-# ---------------------------------------------------------------------------------------------
-
-_TWINS = {}
-
-
-def twin_classes():
-    """(ProbeMachine, ExitCurrentMachine): subclasses of the LIVE Machine.
-    ProbeMachine records every `_change_state` that starts while the model is not in `transition.source`;
-    ExitCurrentMachine exits the state the model is in instead of `transition.source` (what the hierarchical classes
-    do on flat configurations, and what proposed_fixes/C09_1.diff makes `Machine` do)."""
-    if _TWINS:
-        return _TWINS['probe'], _TWINS['exitcur']
-    from transitions import Machine, Transition
-
-    class ProbeTransition(Transition):
-        def _change_state(self, event_data):
-            cur = getattr(event_data.model, event_data.machine.model_attribute)
-            if cur != self.source:
-                event_data.machine.moved.append((self.source, cur, self.dest))
-            return Transition._change_state(self, event_data)
-
-    class ProbeMachine(Machine):
-        transition_cls = ProbeTransition
-
-        def __init__(self, *a, **k):
-            self.moved = []
-            Machine.__init__(self, *a, **k)
-
-    class ExitCurrentTransition(Transition):
-        def _change_state(self, event_data):
-            machine = event_data.machine
-            machine.get_model_state(event_data.model).exit(event_data)
-            machine.set_state(self.dest, event_data.model)
-            event_data.update(getattr(event_data.model, machine.model_attribute))
-            dest = machine.get_state(self.dest)
-            dest.enter(event_data)
-            if dest.final:
-                machine.callbacks(machine.on_final, event_data)
-
-    class ExitCurrentMachine(Machine):
-        transition_cls = ExitCurrentTransition
-
-    _TWINS['probe'], _TWINS['exitcur'] = ProbeMachine, ExitCurrentMachine
-    return ProbeMachine, ExitCurrentMachine
-
-
-# ---------------------------------------------------------------------------------------------
 # streams
 # ---------------------------------------------------------------------------------------------
 
@@ -510,6 +461,11 @@ STREAMS = {
     # Machine's default: the machine is its own model
     'selfmodel': dict(knobs=_k(max_models=1, p_raise=0.05, p_cmds=0.3, p_on_exception=0.3, p_queued=0.3, max_history=8),
                       steer='steer_self', quick=(8, 10), thorough=(16, 80)),
+    # a removed model keeps its triggers (Machine.remove_model): remove_model(m), add_model(another one), then m fires
+    # events — the per-model side tables of the mixins (graphs, lock contexts, queues) must not get in the way
+    'orphan': dict(knobs=_k(max_models=3, max_states=4, p_raise=0.03, p_cmds=0.15, p_on_exception=0.2, p_queued=0.3,
+                            max_history=4, p_cond_false=0.2),
+                   steer='steer_orphan', quick=(8, 10), thorough=(16, 80)),
     # malformed neighbourhood, correspondence only: transitions to unregistered destinations (the order "resolve the
     # destination, then exit" of the hierarchical classes is part of Model/HsmFlat.lean)
     'malformed': dict(knobs=lambda: flat.Knobs(max_models=2, p_unknown_event=0.0, p_bad_dest=0.12, p_raise=0.05,
@@ -543,6 +499,20 @@ def steer_retrigger(d, rng):
         if out[0] == 'ret' and d.cb_slot[c] in (SLOT['conditions'], SLOT['unless']):
             out = ('ret', d.cb_slot[c] == SLOT['conditions'])     # the candidate goes on after the re-trigger
         d.script[(c, 0)] = ([(TRIGGER, d.models[0], rng.choice(evs))], out)
+    return d
+
+
+def steer_orphan(d, rng):
+    """remove_model(m) … add_model(k) for a model k that was never registered … then m fires every event twice"""
+    m = rng.choice(d.models)
+    k = max(d.models) + 1
+    evs = [e for e, _ts in d.events]
+    fire = [(TRIGGER, m, e) for _ in range(2) for e in evs]
+    rng.shuffle(fire)
+    pos = rng.randint(0, len(d.history))
+    mid = d.history[pos:]
+    cut = rng.randint(0, len(mid))
+    d.history = d.history[:pos] + [(REMOVE, m, 0)] + mid[:cut] + [(ADD, k, 0)] + mid[cut:] + fire
     return d
 
 
@@ -682,23 +652,6 @@ def compare(d, ref, run, name):
             'exception_types': {'Machine': oe[:6], name: ce[:6]} if oe != ce else {}}
 
 
-def signature(d, name, run, what):
-    """the listed finding only when (a) the class is hierarchical, (b) the reference run contains a state change that
-    starts while the model is NOT in the transition's source, and (c) the class behaves exactly like `Machine` with that
-    single deviation (exit the state the model is in); anything else is an unlisted violation"""
-    if what != 'differs-from-Machine' or 'Hierarchical' not in name:
-        return 'C09.' + what
-    probe_cls, exitcur_cls = twin_classes()
-    probe = reference(d, probe_cls)
-    if not probe.machine.moved:
-        return 'C09.' + what
-    twin = reference(d, exitcur_cls)
-    is_async = 'Async' in name
-    if observe(d, twin, is_async) == observe(d, run, is_async):
-        return SIG_RETRIGGER
-    return 'C09.' + what
-
-
 def judge(case, ref=None, d=None):
     """case = {'stream', 'desc', 'cls', 'via'} -> ([Failure], run, ref)"""
     d = d or aflat.from_json(case['desc'])
@@ -708,7 +661,7 @@ def judge(case, ref=None, d=None):
     diff = compare(d, ref, run, case['cls'])
     if diff is not None:
         what = diff.pop('what')
-        out.append(Failure('monitor', what, case, diff, signature=signature(d, case['cls'], run, what)))
+        out.append(Failure('monitor', what, case, diff, signature='C09.' + what))
     return out, run, ref
 
 
@@ -790,7 +743,6 @@ def chunk(seed, idx, n, stream, tier):
             refs.append(ref)
             if dd is not None:
                 adescs[len(descs) - 1] = dd
-            moved = None
             for name, via in classes_for(d, dd, tier, rng):
                 if hung and ('Locked' in name or 'Async' in name):
                     continue        # one hang per chunk is enough: every further one costs the watchdog time-out
@@ -812,16 +764,12 @@ def chunk(seed, idx, n, stream, tier):
                 bump(ex.stats, 'stream', stream)
                 if 'Async' in name:
                     bump(ex.stats, 'async', 'traces_where_raw_async_order_differs_from_sync', int(run.items != use_ref.items))
-                if 'Hierarchical' in name and 'Async' not in name:
-                    if moved is None:
-                        moved = bool(reference(d, twin_classes()[0]).machine.moved)
-                    bump(ex.stats, 'hierarchical', 'cases_with_a_state_change_while_model_not_in_source', int(moved))
                 ex.failures += fs
                 if len(ex.samples) < 1 and executed and len(use_ref.items) > 12 and name != 'LockedMachine':
                     ex.samples.append({'stream': stream, 'class': name, 'via': via, 'queued': d.queued, 'history': use_d.history,
                                        'trace': [show(i) for i in run.items[:40]]})
             flatcheck.trace_stats(ex.stats, d, ref)
-        if sum(1 for f in ex.failures if f.signature != SIG_RETRIGGER) >= 3:
+        if len(ex.failures) >= 3:
             break       # enough counterexamples from this chunk
     ex.failures += corr_failures(stream, descs, refs, adescs, aruns, hruns)
     return ex
@@ -847,7 +795,7 @@ class C09(runner.Check):
                 'TM.C09_graph_noninterference', 'TM.C09_markup_noninterference', 'TM.C09_side_table_write_only',
                 'TM.Locked.C09_locked_single_thread', 'TM.Locked.C09_locks_once_default',
                 'TM.C09_async_flat', 'TM.C09_async_graph_flat',
-                'TM.C09_hsm_flat_partial', 'TM.C09_hsm_flat_counterexample')
+                'TM.C09_hsm_flat')
     manifest = dict(
         level='proof', design='DESIGN.md 4/C09 + design_notes/C09.md',
         text="Lean 4 theorems, unbounded: (1) the flat engine instrumented with a side table in exactly the places where "
@@ -859,8 +807,8 @@ class C09(runner.Check):
              "semantics computes (C09_locked_single_thread); (3) the async engine agrees with the synchronous one up to "
              "C07's observation map (C09_async_flat = C07_flat_partial; C09_async_graph_flat composes it with (1)); (4) the "
              "depth-1 collapse of NestedTransition._change_state (Model/HsmFlat.lean: destination resolved first, the state "
-             "the model is in is exited) is the flat engine for every script without re-entrant calls "
-             "(C09_hsm_flat_partial) and is NOT in general (C09_hsm_flat_counterexample: listed finding); (5) "
+             "the model is in is exited) is the flat engine for EVERY script, re-entrant calls included, on configurations "
+             "with registered destinations (C09_hsm_flat; full strength since /repo ba1cc46); (5) "
              "over a table regenerated from the LIVE classes before every build, by decide: the factory returns for each "
              "of the 12 supported feature tuples a class whose issubclass flags are the tuple and raises ValueError for "
              "the 4 locked+asyncio tuples (C09_factory_exact), every class resolves state_cls/event_cls/transition_cls "
@@ -873,8 +821,8 @@ class C09(runner.Check):
              "composition itself is Python and is covered by the differential only (sampling). C09_nested_flat against the "
              "full nested engine is NOT proved (needs the nested engine model of C02); Model/HsmFlat.lean is the depth-1 "
              "collapse of one function, tied to HierarchicalMachine by trace equality; everything else about the "
-             "hierarchical classes is decided by the differential, which reports the open finding "
-             "F-C09-hsm-retrigger-exit. Async classes are compared inside C07's regime; only the "
+             "hierarchical classes is decided by the differential (the former finding F-C09-hsm-retrigger-exit is fixed; "
+             "its witness is a regression case in corpus/C09). Async classes are compared inside C07's regime; only the "
              "Mermaid diagram backend is importable in the sandbox.",
         technique='Lean 4 proof (structural simulation / erasure, LTS invariant, decide over a generated table) + '
                   'implementation-level differential monitor on 12 classes + model correspondence',
@@ -884,7 +832,8 @@ class C09(runner.Check):
             '(callbacks that trigger events on the same / other / unregistered models, remove models, raise; queued and '
             'unqueued), a membership stream (add_model / remove_model / dispatch from callers and callbacks), the same '
             'configurations built incrementally (add_states / add_transition after the models are attached), the machine as '
-            'its own model, and an unqueued re-trigger stream on one model (+ a malformed stream with unregistered destinations, model '
+            'its own model, a removed model that keeps firing events after another model was added, and an unqueued '
+            're-trigger stream on one model (+ a malformed stream with unregistered destinations, model '
             'correspondence only); every description runs on Machine and on the other 11 classes, each reached by name or '
             'through MachineFactory.get_predefined (coin flip); async classes: callbacks independently plain / coroutine / suspending coroutine; a case = '
             '(description, class); non-trivial = the reference run executes at least one transition; distinct = different '
@@ -893,8 +842,8 @@ class C09(runner.Check):
                'lean/Model/HsmFlat.lean (tied to HierarchicalMachine likewise), lean/Model/Side.lean (placement of the '
                'side-table hooks), lean/Model/Locked.lean, lean/Model/Async.lean (tied to AsyncMachine on trigger-only cases)',
                'harness/extract_tables.py (issubclass / inspect.signature readings written to lean/Generated/Tables.lean)',
-               'harness/props/c09.py recorders, observation (aflat.obs for async classes), the twin classes that classify '
-               'the listed finding; Mermaid is the only diagram backend exercised')
+               'harness/props/c09.py recorders and observation (aflat.obs for async classes); Mermaid is the only diagram '
+               'backend exercised')
 
     def assumptions(self):
         return [
@@ -915,9 +864,8 @@ class C09(runner.Check):
             'locked classes run on one thread under a watchdog; thread schedules are C06\'s business',
             'hierarchical classes: only the depth-1 collapse of NestedTransition._change_state is modelled in Lean '
             '(Model/HsmFlat.lean, tied by trace equality); the rest of the nested engine on flat configurations is decided '
-            'by the differential. The one listed difference is classified by twin classes: it is the listed finding only '
-            'if the class behaves exactly like Machine-exiting-the-current-state on an input where a state change starts '
-            'while the model is not in transition.source',
+            'by the differential; no difference is listed as known (a return of the re-trigger defect fixed in /repo '
+            'ba1cc46 is a violation)',
         ]
 
     # -- run -------------------------------------------------------------------------------------
@@ -964,7 +912,7 @@ class C09(runner.Check):
                              'regenerated': getattr(self, 'table_status', 'n/a')}
         for what, case, details in tf:
             ex.failures.append(Failure('monitor', what, case, details, signature='C09.table.' + what))
-        # corpus first: witnesses of listed findings, minimised past disagreements
+        # corpus first: regression cases (witnesses of fixed findings, minimised past disagreements)
         cdir = os.path.join(common.CORPUS, self.prop)
         for fname in sorted(os.listdir(cdir)) if os.path.isdir(cdir) else []:
             with open(os.path.join(cdir, fname)) as fh:
